@@ -281,7 +281,10 @@ class CLexer:
                 try:
                     self._lineno = int(pp_line)
                 except ValueError:
-                    self._error("invalid #line directive", self._pos + line_len)
+                    # Python refuses to convert very long digit sequences.
+                    # Report it and skip the directive line like every
+                    # other malformed #line.
+                    fail("invalid #line directive", line_len)
                     return
                 if pp_filename is not None:
                     self._filename = pp_filename
